@@ -17,7 +17,7 @@ def worldServices : List (String × String × Svc) := [
   ("c2", "s2", { ordered := false, blacklist := [], available := true }),
   ("c3", "s1", { ordered := true, blacklist := [sv "c1" "s2"], available := true }),
   ("c2", "s3", { ordered := true, blacklist := [], available := true }),
-  ("c4", "s1", { ordered := true, blacklist := [], available := true })
+  ("c4", "s1", { ordered := true, blacklist := [{ bxh := "9999", chain := "c6", sid := "s2" }], available := true })
 ]
 
 structure St where
